@@ -5,11 +5,13 @@
 use crate::engine::{Obs, B};
 use crate::models::dewey::cap_digit_runs;
 use crate::models::summary as ms;
-use crate::props::{c01, c02, c03, c04, c05, c06, c08, c09, c11, c14, c18, c19};
+use crate::props::{c01, c02, c03, c04, c05, c06, c08, c09, c11, c13, c14, c16, c18, c19};
 use crate::targets;
 
 /// (fuzz target, property it serves)
-pub const FUZZ_TARGETS: [(&str, &str); 15] = [
+pub const FUZZ_TARGETS: [(&str, &str); 17] = [
+    ("hash_schedules", "C13"),
+    ("scan_lines", "C16"),
     ("dewey_patterns", "C02"),
     ("globs", "C05"),
     ("best_match", "C06"),
@@ -131,6 +133,48 @@ pub fn run_checked(target: &str, data: &[u8]) -> Result<(), String> {
             let body = if final_newline { &data[..data.len() - 1] } else { data };
             let lines: Vec<B> = body.split(|b| *b == b'\n').take(60).map(|l| B(l.to_vec())).collect();
             c11::check(&c11::Case { lines, final_newline }, &mut obs)
+        }
+        "hash_schedules" => {
+            // [n][n x (kind, size)][tail][bytes...]: a read schedule in front of the data
+            let mut it = data.iter().copied();
+            let n = (it.next().unwrap_or(0) % 16) as usize;
+            let mut schedule = vec![];
+            let mut errors = 0;
+            for _ in 0..n {
+                let (k, v) = (it.next().unwrap_or(0), it.next().unwrap_or(1));
+                schedule.push(match k % 8 {
+                    6 => c13::Step::Interrupted,
+                    7 if errors == 0 => {
+                        errors += 1;
+                        c13::Step::Error(v)
+                    }
+                    0 => c13::Step::Chunk(1),
+                    1 => c13::Step::Chunk(v as u32 * 40 + 1),
+                    _ => c13::Step::Chunk(v as u32 + 1),
+                });
+            }
+            let tail_chunk = match it.next().unwrap_or(0) % 4 {
+                0 => 1,
+                1 => 7,
+                2 => 64,
+                _ => 8192,
+            };
+            let rest: Vec<u8> = it.collect();
+            c13::check(&c13::Case { data: B(rest), schedule, tail_chunk }, &mut obs)
+        }
+        "scan_lines" => {
+            // [k][k chunk sizes][fault selector][text...]
+            let mut it = data.iter().copied();
+            let k = (it.next().unwrap_or(0) % 13) as usize;
+            let chunks: Vec<u16> = (0..k).map(|_| it.next().unwrap_or(1) as u16).collect();
+            let sel = it.next().unwrap_or(1);
+            let fail_at = if sel % 4 == 0 { Some((sel / 4) as u16 % 40) } else { None };
+            let rest: Vec<u8> = it.collect();
+            let final_newline = rest.last() == Some(&b'\n');
+            let body = if final_newline { &rest[..rest.len() - 1] } else { &rest[..] };
+            let text = String::from_utf8_lossy(body).into_owned();
+            let lines: Vec<String> = if text.is_empty() { vec![] } else { text.split('\n').map(String::from).collect() };
+            c16::check(&c16::Case { lines, final_newline, chunks, fail_at, all_reads: false }, &mut obs)
         }
         "pkgnames" => c18::check(&c18::Case { name: String::from_utf8_lossy(data).into_owned() }, &mut obs),
         "paths" => match data.split_first() {
@@ -271,6 +315,44 @@ fn seeds_c11() -> Vec<Vec<u8>> {
         })
         .collect()
 }
+fn seeds_c13() -> Vec<Vec<u8>> {
+    let mut v = vec![];
+    for c in samples(c13::case_strategy(Tier::Quick), 60).into_iter().chain(samples(c13::fault_strategy(Tier::Quick), 40)) {
+        if c.data.0.len() > 900 {
+            continue;
+        }
+        let mut d = vec![c.schedule.len().min(15) as u8];
+        for s in c.schedule.iter().take(15) {
+            match s {
+                c13::Step::Chunk(n) => d.extend([2u8, (*n).min(255) as u8]),
+                c13::Step::Interrupted => d.extend([6u8, 0]),
+                c13::Step::Error(k) => d.extend([7u8, *k]),
+            }
+        }
+        d.push(2);
+        d.extend_from_slice(&c.data.0);
+        v.push(d);
+    }
+    v
+}
+fn seeds_c16() -> Vec<Vec<u8>> {
+    samples(c16::clean_strategy(Tier::Quick), 80)
+        .into_iter()
+        .chain(samples(c16::fault_strategy(Tier::Quick), 60))
+        .filter(|c| c.lines.len() < 60)
+        .map(|c| {
+            let mut d = vec![c.chunks.len().min(12) as u8];
+            d.extend(c.chunks.iter().take(12).map(|n| (*n).min(255) as u8));
+            d.push(1);
+            let mut t = c.lines.join("\n");
+            if c.final_newline {
+                t.push('\n');
+            }
+            d.extend_from_slice(t.as_bytes());
+            d
+        })
+        .collect()
+}
 fn seeds_c18() -> Vec<Vec<u8>> {
     samples(c18::case_strategy(Tier::Quick), 200).into_iter().map(|c| c.name.into_bytes()).collect()
 }
@@ -295,6 +377,8 @@ pub fn campaigns(property: &str) -> Vec<Campaign> {
         "C19" => vec![c("paths", 1_000_000, 96, "patterns.dict", seeds_c19)],
         "C04" => vec![c("braces", 400_000, 96, "", seeds_random)],
         "C09" => vec![c("stream_chunks", 150_000, 160, "", seeds_random)],
+        "C13" => vec![c("hash_schedules", 60_000, 1024, "docs.dict", seeds_c13)],
+        "C16" => vec![c("scan_lines", 300_000, 1024, "docs.dict", seeds_c16)],
         "C14" => vec![c("plist_lines", 600_000, 256, "docs.dict", seeds_plist)],
         "C17" => vec![
             c("c17_pattern", 400_000, 512, "patterns.dict", seeds_c17_pattern),
